@@ -399,7 +399,7 @@ func (in *Interp) violate(key, label, detail string) {
 func (in *Interp) violateWithModel(key, label, detail string) {
 	v := Violation{Key: key, Label: label, Detail: detail}
 	if in.sol.CheckSat() == Sat {
-		v.Model, v.HasModel = in.confirmModel()
+		v.Model, v.HasModel = in.confirmModel(70000)
 	}
 	in.path.violations = append(in.path.violations, v)
 }
